@@ -419,6 +419,9 @@ static uint32_t _composite_cp(uint32_t cp, uint32_t cp2) {
        But then we'd need to store the lengths also */
     if (likely(cp < UNWIF_COMPLIST_FIRST_LONG)) {
         UNWIF_complist_s *i;
+        /* these lists hold 16-bit second characters only */
+        if (cp2 > 0xffff)
+            return 0;
         for (i = (UNWIF_complist_s *)cell; i->nextchar; i++) {
             if ((uint16_t)cp2 == i->nextchar) {
                 return (uint32_t)(i->composite);
